@@ -81,7 +81,6 @@ package headers
 //@ func NewBranch
 //@   requires header != nil
 //@   requires [C02.bits-domain,C15.bits-domain] validBits(header.Bits)
-//@   requires parent != nil && anc(parent, parentHeight) != nil ==> anc(parent, parentHeight).AccumulatedWork != nil
 //@   ensures [C01] parent != nil && old(anc(parent, parentHeight)) == nil ==> result0 == nil && result1 == ErrHeaderDataNotFound
 //@   ensures [C01] parent != nil && old(anc(parent, parentHeight)) != nil && old(anc(parent, parentHeight).Hash) != header.PrevBlock ==> result0 == nil && result1 == ErrWrongPreviousHash
 //@   ensures [C01] (result0 == nil) == (result1 != nil)
@@ -124,3 +123,56 @@ package headers
 //@   loop 1
 //@     invariant (-1 <= rangeindex && rangeindex < len(bs)) || (len(bs) == 0 && rangeindex == -1)
 //@     invariant forall(i, 0, rangeindex+1, findH(bs[i], hash) == -1)
+
+// ---------------------------------------------------------------------------------------------------
+// Repository
+
+//@ ufunc hashValue(h bitcoin.Hash32) int
+//@ pure func workValid(h bitcoin.Hash32, bits uint32) bool = hashValue(h) <= difficultyOf(bits)
+//@ axiom forallv(x, int, workOfDiff(x) >= 1)
+
+// repoInv: the representation invariant of a Repository (what every operation under repo's lock may rely on
+// and must re-establish). R-max (C01): the branch reported as longest has a tip of maximal accumulated work.
+//@ pure func repoBasic(r *Repository) bool = r != nil && r.config != nil && r.heights != nil && r.longest != nil && len(r.branches) > 0 && exists(k, 0, len(r.branches), r.longest == r.branches[k])
+//@ pure func repoTips(r *Repository) bool = forall(i, 0, len(r.branches), tipOK(r.branches[i]) && r.branches[i].heightsMap != nil)
+//@ pure func repoMax(r *Repository) bool = forall(i, 0, len(r.branches), W(last(*r.longest)) >= W(last(*r.branches[i])))
+//@ pure func repoSep(r *Repository) bool = forall(i, 0, len(r.branches), forall(j, 0, len(r.branches), i != j ==> r.branches[i] != r.branches[j] && arr(r.branches[i].headers) != arr(r.branches[j].headers)))
+//@ pure func repoInv(r *Repository) bool = repoBasic(r) && repoTips(r) && repoMax(r) && repoSep(r)
+
+//@ trusted func (*Repository).clean
+//@   requires [basic] repoBasic(repo)
+//@   requires [tips] repoTips(repo)
+//@   requires [max] repoMax(repo)
+//@   requires [sep] repoSep(repo)
+//@   ensures repoInv(repo)
+//@   modifies all
+
+//@ trusted func (*Branch).IntersectHash
+//@   modifies nothing
+
+//@ trusted func (Branch).Target
+//@   modifies nothing
+
+//@ trusted func (*Repository).sendBranchUpdate
+//@   modifies allchans(*wire.BlockHeader)
+
+//@ func (*Repository).ProcessHeader
+//@   requires repoInv(repo) && header != nil
+//@   requires repo.disableDifficulty ==> validBits(header.Bits)
+//@   let hash = hashOf(header)
+//@   let bits = header.Bits
+//@   ensures [C01.inv-basic] repoBasic(repo)
+//@   ensures [C01.inv-tips] repoTips(repo)
+//@   ensures [C01.tip-maximal] repoMax(repo)
+//@   ensures [C01.inv-sep] repoSep(repo)
+//@   ensures [C02.work,C08.not-enough-work] !old(repo.disableDifficulty) && !workValid(hash, bits) ==> result == ErrNotEnoughWork
+//@   modifies all
+//@   loop 1
+//@     invariant (-1 <= rangeindex && rangeindex < len(repo.splits)) || (len(repo.splits) == 0 && rangeindex == -1)
+//@   loop 2
+//@     invariant (-1 <= rangeindex && rangeindex < len(repo.splits)) || (len(repo.splits) == 0 && rangeindex == -1)
+//@   loop 3
+//@     invariant (-1 <= rangeindex && rangeindex < len(repo.invalidHashes)) || (len(repo.invalidHashes) == 0 && rangeindex == -1)
+//@   loop 4
+//@     modifies allchans(*wire.BlockHeader)
+//@     invariant (-1 <= rangeindex && rangeindex < len(repo.newHeadersChannels)) || (len(repo.newHeadersChannels) == 0 && rangeindex == -1)
